@@ -224,11 +224,16 @@ def gen_lle_case(rng):
     T = rng.choice([300., 310., 285., 355., 298.15, 320.5])
     case['ops'].append(gen_call(rng, T))
     cur = list(tot)
+    visited = [(T, list(cur))]
     for _ in range(rng.randint(1, 4)):
         r = rng.random()
         # how the next call differs from the previous one
-        if r < 0.2:
+        if r < 0.12:
             pass                                            # identical feed and T
+        elif r < 0.2:                                       # back to an earlier (T, feed) of this history
+            T, cur = rng.choice(visited); cur = list(cur)
+            nl, nL = split_rows(rng, cur)
+            case['ops'].append(['set', nl, nL])
         elif r < 0.45:                                      # other temperature (colder / hotter, inside / outside the tolerance)
             T = T + rng.choice([-25., 25., -1., 1., -0.125, 0.125, -2.0 ** -10, 2.0 ** -10, -2.0 ** -12, 2.0 ** -12, -0.0625, 0.0625])
         elif r < 0.75:                                      # other composition: move d units from one chemical to another
@@ -255,6 +260,42 @@ def gen_lle_case(rng):
         if rng.random() < 0.5 and r >= 0.45:
             T = T + rng.choice([-25., 25., -0.125, 0.125, 2.0 ** -12])
         case['ops'].append(gen_call(rng, T))
+        visited.append((T, list(cur)))
+    return case
+
+def gen_lle_revisit_case(rng):
+    """solve at (T1, feed 1); one or two calls elsewhere (other T and/or other feed), each possibly a K-value query
+    (update=False) or a call with reuse forbidden; then the call at exactly (T1, feed 1) again with reuse allowed.
+    What is remembered must by then belong to the call just before, never to the first one."""
+    present = sorted(rng.sample([0, 1, 2, 4], rng.choice([2, 3, 4])) + ([3] if rng.random() < 0.3 else []))
+    f1 = gen_flows(rng, present, rng.choice([4, 5, 6]))
+    l, L = split_rows(rng, f1)
+    case = {'kind': 'lle', 'tolT': rng.choice(TOL_T), 'tolz': rng.choice(TOL_Z),
+            'init': {'l': l, 'L': L, 'g': [rng.choice([0., 1.]) for _ in range(5)]}, 'ops': []}
+    T1 = rng.choice([300., 310., 285., 355., 320.5])
+    first = gen_call(rng, T1); first[1]['update'] = True
+    case['ops'].append(first)
+    for _ in range(rng.choice([1, 1, 2])):
+        T2, f2 = T1, list(f1)
+        how = rng.choice(['T', 'T', 'z', 'both'])
+        if how in ('T', 'both'):
+            T2 = T1 + rng.choice([-25., 25., 40., -10., 1., -1., 0.25, -0.25])
+        if how in ('z', 'both'):
+            nz = [i for i in present if i != 3 and f2[i] > 0.25]
+            others = [i for i in present if i != 3]
+            if nz and len(others) >= 2:
+                a = rng.choice(nz); b = rng.choice([i for i in others if i != a])
+                d = rng.choice([0.125, 0.25]); f2[a] -= d; f2[b] += d
+        nl, nL = split_rows(rng, f2)
+        case['ops'].append(['set', nl, nL])
+        mid = gen_call(rng, T2)
+        mid[1]['update'] = rng.random() < 0.4
+        mid[1]['use_cache'] = rng.random() < 0.7
+        case['ops'].append(mid)
+    nl, nL = split_rows(rng, f1)
+    case['ops'].append(['set', nl, nL])
+    last = gen_call(rng, T1); last[1]['use_cache'] = True; last[1]['update'] = True
+    case['ops'].append(last)
     return case
 
 DY = [0.5, 1., 1.5, 2., 0.25, 0.75, 3., 0.125]
@@ -351,7 +392,7 @@ def gen_cases(rng, tier):
     n = 150 if tier == 'quick' else 2500
     cases = []
     while len(cases) < n:
-        c = gen_lle_case(rng)
+        c = gen_lle_revisit_case(rng) if len(cases) % 5 == 4 else gen_lle_case(rng)
         if exact_boundary(c):
             continue
         cases.append(c)
@@ -762,10 +803,12 @@ def real_history(case, use_cache, scale=1.0):
     tmo.settings.set_thermo(case['chems'], cache=True)
     s = tmo.MultiStream(None, T=298.15, P=101325., phases='lLg')
     s.lle.method = case['method']
-    for T, flows in case['calls']:
+    for call in case['calls']:
+        T, flows = call[0], call[1]
+        update = call[2] if len(call) > 2 else True          # False: a K-value query (flows are not split)
         s.imol['L'] = 0.
         for k, v in flows.items(): s.imol['l', k] = v * scale
-        s.lle(T=T, top_chemical=case.get('top'), use_cache=use_cache)
+        s.lle(T=T, top_chemical=case.get('top'), use_cache=use_cache, update=update)
     return s
 
 def oracle_real(case):
@@ -1021,6 +1064,9 @@ def search_cases(rng, tier):
             k = rng.choice(list(f1)); f1[k] = f1[k] * rng.choice([0.5, 2.])
         cases.append({'kind': 'real', 'chems': chems, 'method': 'differential evolution', 'top': rng.choice([None, chems[1]]),
                       'calls': [[T0, base], [T1, f1]], 'scale': rng.choice([1e-3, 8., 1e3])})
+        # solve, K-value query (update=False) or plain call elsewhere, then the first conditions again
+        cases.append({'kind': 'real', 'chems': chems, 'method': 'differential evolution', 'top': rng.choice([None, chems[1]]),
+                      'calls': [[T0, base], [T1, f1, rng.random() < 0.3], [T0, base]], 'scale': rng.choice([1e-3, 8., 1e3])})
     cases.append({'kind': 'sle_hist_real', 'chems': ['Water', 'Tetradecanol', 'Octanol'],
                   'steps': [{'l': {'Tetradecanol': 5.}, 's': {}, 'solute': 'Tetradecanol', 'T': 300.},
                             {'l': {'Water': 10., 'Octanol': 2., 'Tetradecanol': 5.}, 's': {}, 'solute': 'Tetradecanol', 'T': 305.}]})
